@@ -184,16 +184,31 @@ def parse_outputs(text):
     partial = (sid, cur) if sid is not None else None
     return out, partial
 
+def _load_scale():
+    """>= 1: how much slower than an idle machine things may be right now (other jobs on the box)."""
+    try:
+        return max(1.0, os.getloadavg()[0] / float(NCPU)) * 1.5
+    except OSError:
+        return 1.5
+
+os.environ.setdefault("VERIF_TIME_SCALE", "%.2f" % _load_scale())
+
+def _is_model(exe_args):
+    return os.path.basename(exe_args[0]) == "modelrun"
+
 def _run_chunk(exe_args, scripts, per_script_timeout):
     """Feed scripts to one process; on death/hang mark the in-flight script and continue with a
-    fresh process. Returns dict id -> lines."""
+    fresh process. Returns dict id -> lines.  The extracted model is a total function: it gets a
+    very long limit (a slow box must never turn into a missing reference).  A script of the
+    implementation that looks hung is re-run alone with a generous limit before HUNG is recorded."""
     results = {}
     todo = list(scripts)
     while todo:
         text = "".join(s.text() for s in todo)
+        limit = 3600 if _is_model(exe_args) else (20 + per_script_timeout * len(todo)) * _load_scale()
         try:
             p = subprocess.run(exe_args, input=text, stdout=subprocess.PIPE, stderr=subprocess.PIPE,
-                               text=True, timeout=20 + per_script_timeout * len(todo))
+                               text=True, timeout=limit)
             stdout, died = p.stdout, p.returncode != 0
             hung = False
         except subprocess.TimeoutExpired as e:
@@ -210,14 +225,36 @@ def _run_chunk(exe_args, scripts, per_script_timeout):
         bad = remaining[0]
         lines = list(partial[1]) if partial and partial[0] == bad.id else []
         lines.append("HUNG" if hung else "DIED")
+        if hung and not _is_model(exe_args):
+            try:
+                q = subprocess.run(exe_args, input=bad.text(), stdout=subprocess.PIPE, stderr=subprocess.PIPE,
+                                   text=True, timeout=(30 + 60 * per_script_timeout) * _load_scale())
+                d2, _ = parse_outputs(q.stdout)
+                if bad.id in d2:
+                    lines = d2[bad.id]
+            except subprocess.TimeoutExpired:
+                pass
         results[bad.id] = lines
         todo = remaining[1:]
     return results
+
+XCHECK_POOL = {}      # runner mode -> sample of raw script texts sent to the extracted runner by this check
+XCHECK_FAIL = []      # filled by write_evidence when the in-Coq evaluation disagrees with the extracted runner
+
+def xcheck_record(mode, texts, keep=400):
+    pool = XCHECK_POOL.setdefault(mode, [])
+    for t in texts:
+        if len(pool) >= keep:
+            break
+        pool.append(t)
 
 def run_parallel(exe_args, scripts, per_script_timeout=0.5):
     from concurrent.futures import ThreadPoolExecutor
     if not scripts:
         return {}
+    if len(exe_args) == 2 and os.path.basename(exe_args[0]) == "modelrun" and len(scripts) > 1:
+        step = max(1, len(scripts) // 100)
+        xcheck_record(exe_args[1], [s.text() for s in scripts[::step]])
     n = min(NCPU, max(1, len(scripts) // 20 + 1))
     chunks = [scripts[i::n] for i in range(n)]
     results = {}
@@ -286,18 +323,51 @@ def norm_scalar_reply(impl, model):
             return "f" + frac_text(fr), model
     return impl, model
 
+def _equiv(x, y):
+    """impl item x and model item y denote the same reply (floats printed as text compared as numbers)"""
+    if x == y:
+        return True
+    if isinstance(x, tuple) and isinstance(y, tuple):
+        if x[0] == y[0] == "arr":
+            return len(x[1]) == len(y[1]) and all(_equiv(p, q) for p, q in zip(x[1], y[1]))
+        return len(x) == len(y) and all(_equiv(p, q) for p, q in zip(x, y))
+    u, v = norm_scalar_reply(x, y)
+    return u == v
+
 def norm_tree(impl, model, unordered=False, pairs=False):
+    """-> (x, y) with x == y iff the two replies are the same up to float text and, when `unordered`
+    (the server ranges over a Go map), up to the order of the top-level items (of the field/value pairs
+    when `pairs`).  Unordered items are matched as multisets: exact matches first, then a float text
+    against the model's rational — never by position, since the positions are what is arbitrary."""
     if isinstance(impl, tuple) and isinstance(model, tuple) and impl[0] == model[0] == "arr":
-        a, b = impl[1], model[1]
+        a, b = list(impl[1]), list(model[1])
+        if not unordered:
+            if len(a) == len(b):
+                z = [norm_tree(x, y) for x, y in zip(a, b)]
+                a, b = [x for x, _ in z], [y for _, y in z]
+            return ("arr", a), ("arr", b)
+        if pairs and len(a) % 2 == 0 and len(b) % 2 == 0:
+            a = [tuple(a[i:i + 2]) for i in range(0, len(a), 2)]
+            b = [tuple(b[i:i + 2]) for i in range(0, len(b), 2)]
         if len(a) == len(b):
-            z = [norm_tree(x, y) for x, y in zip(a, b)]
-            a, b = [x for x, _ in z], [y for _, y in z]
-        if unordered:
-            if pairs and len(a) % 2 == 0 and len(b) % 2 == 0:
-                a = [tuple(a[i:i + 2]) for i in range(0, len(a), 2)]
-                b = [tuple(b[i:i + 2]) for i in range(0, len(b), 2)]
-            a, b = sorted(a, key=repr), sorted(b, key=repr)
-        return ("arr", a), ("arr", b)
+            rest_b = list(b)
+            left = []
+            for x in a:
+                if x in rest_b:
+                    rest_b.remove(x)
+                else:
+                    left.append(x)
+            ok = True
+            for x in left:
+                hit = next((y for y in rest_b if _equiv(x, y)), None)
+                if hit is None:
+                    ok = False
+                    break
+                rest_b.remove(hit)
+            if ok:
+                bs = sorted(b, key=repr)
+                return ("arr", bs), ("arr", bs)
+        return ("arr", sorted(a, key=repr)), ("arr", sorted(b, key=repr))
     return norm_scalar_reply(impl, model)
 
 _EMPTY_DB = re.compile(r" db-?\d+\{\}v\[\]")
@@ -387,10 +457,38 @@ def assumptions_of(prop, log_text):
 
 def write_evidence(prop, tier, seed, coverage, assumptions, wall_s, violations, level="proof"):
     os.makedirs(os.path.join(VERIF, "evidence"), exist_ok=True)
+    t0 = time.time()
+    xc = extraction_crosscheck(prop, 24 if tier == "quick" else 300)
+    if xc is not None:
+        coverage = dict(coverage, extraction_crosscheck=xc)
+        tb = list(coverage.get("trusted_base", []))
+        tb.append("extraction + OCaml driver cross-checked on this run: %d sampled scripts re-evaluated by vm_compute "
+                  "inside Coq, %d disagreements" % (xc["cases"], xc["disagreements"]))
+        coverage["trusted_base"] = tb
+        if xc["disagreements"] or xc["errors"]:
+            path = write_replay(prop, "extraction", {"property": prop, "kind": "extracted runner and in-Coq evaluation disagree",
+                                "no_longer_checks": "extraction cross-check", "detail": xc})
+            print("VIOLATION property=%s replay=%s no-failing-input-found" % (prop, path))
+            XCHECK_FAIL.append(path)
+            violations += 1
+    wall_s += time.time() - t0
     ev = {"property_id": prop, "tier": tier, "seed": seed, "level": level, "coverage": coverage,
           "assumptions": assumptions, "wall_s": round(wall_s, 2), "violations": violations}
     with open(os.path.join(VERIF, "evidence", prop + ".json"), "w") as f:
         json.dump(ev, f, indent=1, sort_keys=True)
+
+def extraction_crosscheck(prop, per_mode):
+    """Re-evaluate a sample of the scripts this check sent to the extracted runner with vm_compute."""
+    if not XCHECK_POOL or os.environ.get("VERIF_NO_XCHECK") == "1":
+        return None
+    from concurrent.futures import ThreadPoolExecutor
+    modes = sorted(XCHECK_POOL)
+    with ThreadPoolExecutor(len(modes)) as ex:
+        res = list(ex.map(lambda m: vm_crosscheck(m, XCHECK_POOL[m], per_mode, tag="%s_%s" % (prop, m)), modes))
+    out = {"per_mode": dict(zip(modes, res)), "cases": sum(r.get("cases", 0) for r in res),
+           "disagreements": sum(len(r.get("mismatches", [])) for r in res),
+           "errors": [r["error"] for r in res if "error" in r]}
+    return out
 
 def known_findings(prop):
     path = os.path.join(VERIF, "known_findings.json")
@@ -404,3 +502,87 @@ def write_replay(prop, name, obj):
     path = os.path.join(d, "%s_%s.json" % (prop, name))
     json.dump(obj, open(path, "w"), indent=1)
     return path
+
+# ---------------------------------------------------------------------------------------------
+# Extraction cross-check: the same scripts evaluated by vm_compute inside Coq (no extraction, no
+# OCaml driver) must print exactly what the extracted runner printed.
+
+MODE_FUN = {
+    "model": ("Model.Script", "run_script"), "spec15": ("Spec.SpecRun", "run_spec15"),
+    "spec14": ("Spec.SpecRunHash", "run_spec14"), "spec16": ("Spec.SpecRunSet", "run_spec16"),
+    "spec17": ("Spec.SpecRunZSet", "run_spec17"), "spec17p": ("Spec.SpecRunZSet", "run_spec17p"),
+    "acl": ("Model.AclWorld", "run_acl_script"), "spec06": ("Spec.SpecRunAcl", "run_spec06"),
+    "model08": ("Model.ScriptEvict", "run_model08"), "spec08": ("Spec.SpecEvict", "run_spec08"),
+    "model18": ("Spec.SpecRunPubSub", "run_model18"), "spec18": ("Spec.SpecRunPubSub", "run_spec18"),
+    "aof": ("Model.AofRun", "run_aof"), "spec02": ("Spec.SpecRunDurable", "run_spec02"),
+    "snap": ("Model.SnapServer", "run_snap"), "spec12": ("Spec.SpecRunWire", "run_spec12"),
+}
+
+def _coq_str(s):
+    return '"' + s.replace('"', '""') + '"'
+
+def _coq_lines(lines):
+    return "[" + "; ".join(_coq_str(l) for l in lines) + "]"
+
+def split_blocks(text):
+    """raw line-protocol text -> list of blocks (each a list of lines starting with its 'S ' line)"""
+    blocks, cur = [], None
+    for line in text.splitlines():
+        if line == "":
+            continue
+        if line.startswith("S "):
+            if cur is not None:
+                blocks.append(cur)
+            cur = [line]
+        elif cur is not None:
+            cur.append(line)
+    if cur is not None:
+        blocks.append(cur)
+    return blocks
+
+def vm_crosscheck(mode, texts, limit=40, tag=None):
+    """texts: list of raw script texts (one script each).  Returns dict with cases / mismatches / seconds /
+    skipped; {'error': ...} when coqc itself fails.  Scripts with bytes outside printable ASCII or longer
+    than 400 lines are skipped (they cannot be written as Coq string literals cheaply)."""
+    t0 = time.time()
+    if mode not in MODE_FUN:
+        return {"cases": 0, "mismatches": [], "skipped": len(texts), "note": "mode %s has no in-Coq entry" % mode}
+    ok = []
+    for t in texts:
+        lines = [l for l in t.splitlines() if l != ""]
+        if 0 < len(lines) <= 150 and sum(len(l) for l in lines) <= 6000 and all(32 <= ord(c) < 127 for l in lines for c in l):
+            ok.append(lines)
+    skipped = len(texts) - len(ok)
+    if len(ok) > limit:
+        step = len(ok) / float(limit)
+        ok = [ok[int(i * step)] for i in range(limit)]
+    if not ok:
+        return {"cases": 0, "mismatches": [], "skipped": skipped}
+    inp = "".join("\n".join(ls) + "\n" for ls in ok)
+    p = subprocess.run([os.path.join(BUILD, "modelrun"), mode], input=inp, stdout=subprocess.PIPE,
+                       stderr=subprocess.PIPE, text=True, timeout=600)
+    outs = split_blocks(p.stdout)
+    if p.returncode != 0 or len(outs) != len(ok):
+        return {"error": "extracted runner gave %d blocks for %d scripts (rc=%d)" % (len(outs), len(ok), p.returncode)}
+    mod, fun = MODE_FUN[mode]
+    d = os.path.join(BUILD, "vmx")
+    os.makedirs(d, exist_ok=True)
+    name = "X_%s" % (tag or mode)
+    src = ["From Coq Require Import String List.", "From EV Require Import %s." % mod,
+           "Import ListNotations.", "Local Open Scope string_scope.",
+           "Definition same (a b : list string) : bool := if list_eq_dec string_dec a b then true else false."]
+    for k, (i, o) in enumerate(zip(ok, outs)):
+        # one definition per case: a single huge list literal overflows coqc's stack
+        src.append("Definition c%d : bool := Eval vm_compute in same (%s %s)\n   %s." % (k, fun, _coq_lines(i), _coq_lines(o)))
+    src.append("Definition verdict : list nat := Eval vm_compute in")
+    src.append("  " + " ++ ".join("(if c%d then [] else [%d%%nat])" % (k, k) for k in range(len(ok))) + ".")
+    src.append("Print verdict.")
+    path = os.path.join(d, name + ".v")
+    open(path, "w").write("\n".join(src) + "\n")
+    q = sh("timeout 900 coqc -Q %s EV %s" % (COQ, path), cwd=d, check=False, timeout=1000)
+    m = re.search(r"verdict\s*=\s*(\[[^\]]*\])", q.stdout.replace("\n", " "))
+    if q.returncode != 0 or not m:
+        return {"error": "coqc on the cross-check file failed: " + q.stdout[-600:]}
+    bad = [int(x) for x in re.findall(r"\d+", m.group(1))]
+    return {"cases": len(ok), "mismatches": [ok[i][0] for i in bad], "skipped": skipped,
+            "seconds": round(time.time() - t0, 1), "function": "%s.%s" % (mod, fun)}
